@@ -18,14 +18,17 @@
  * the child after the fork must equal the control's, and so must the parent's.
  * Child and parent run one after the other (the child puts the shared pipes
  * back into their at-fork content before it leaves), so everything is
- * deterministic on the virtual clock; the only wall-clock element is the
- * optional cross-thread wake-up phase whose failure is a watchdog kill
- * (inconclusive).  Additional direct checks: the parent's epoll registration
+ * deterministic on the virtual clock.  Cross-thread wake-ups are judged
+ * logically as well: while the loop thread sits in the (wrapped) backend wait a
+ * helper thread calls event_active(); once the helper is joined the counter of
+ * the process's own notify eventfd must have grown (control, parent and child,
+ * also when the fork happened with such a notification in flight).
+ * Additional direct checks: the parent's epoll registration
  * (/proc/self/fdinfo/<epfd>) is byte-identical before the fork and after the
  * child has re-initialised, added/deleted events and freed its base; after
  * reinit the child's signal socketpair and notify eventfd are different kernel
- * objects from the parent's; the parent's notify fd is not readable after the
- * child ran; a signal the child sends to the parent reaches the parent only.
+ * objects from the parent's; the parent's notify fd is in the same state after
+ * the child ran as right before the fork; a signal the child sends to the parent reaches the parent only.
  *
  * Cases run in batches inside forked children of the harness (signal state is
  * process-global; forking a sanitized process is the dominant cost).
@@ -396,6 +399,29 @@ static long eventfd_id(int fd)
 	if (!p) return -1;
 	return atol(p + 11);
 }
+/* eventfd counter as shown by fdinfo ("eventfd-count: <hex>"), -1 if not an eventfd / not shown */
+static long eventfd_count(int fd)
+{
+	char path[64], buf[2048], *p;
+	int f;
+	ssize_t n;
+	if (fd < 0) return -1;
+	snprintf(path, sizeof(path), "/proc/self/fdinfo/%d", fd);
+	f = open(path, O_RDONLY);
+	if (f < 0) return -1;
+	n = __real_read(f, buf, sizeof(buf) - 1);
+	__real_close(f);
+	if (n <= 0) return -1;
+	buf[n] = 0;
+	p = strstr(buf, "eventfd-count:");
+	if (!p) return -1;
+	return strtol(p + 14, NULL, 16);
+}
+static int fd_readable(int fd)
+{
+	struct pollfd pf; pf.fd = fd; pf.events = POLLIN; pf.revents = 0;
+	return fd >= 0 && __real_poll(&pf, 1, 0) > 0 && (pf.revents & POLLIN);
+}
 static long fd_ino(int fd) { struct stat st; if (fd < 0 || fstat(fd, &st)) return -1; return (long)st.st_ino; }
 
 /* ---- fork point ---- */
@@ -404,8 +430,8 @@ static void fork_point(void)
 {
 	int lp[2], epfd = -1, status = 0, i, ntfd = 0;
 	char snap0[8192], snap1[8192];
-	long nid0 = -1, sino0 = -1;
-	int notifiable0;
+	long nid0 = -1, sino0 = -1, ncount0 = -1;
+	int notifiable0, nread0 = 0;
 	pid_t pid;
 	if (forked) return;
 	forked = 1;
@@ -415,7 +441,7 @@ static void fork_point(void)
 	for (i = 0; i < SC->npipe; i++) { pp[i].at_fork = pp[i].inpipe; pp[i].full_at_fork = pp[i].full; }
 	if (SC->backend == 0) { epfd = find_epfd(); if (epfd >= 0) ntfd = epoll_snapshot(epfd, snap0, sizeof(snap0)); }
 	notifiable0 = base->th_notify_fn != NULL;
-	if (base->th_notify_fd[0] >= 0) nid0 = eventfd_id(base->th_notify_fd[0]);
+	if (base->th_notify_fd[0] >= 0) { nid0 = eventfd_id(base->th_notify_fd[0]); ncount0 = eventfd_count(base->th_notify_fd[0]); nread0 = fd_readable(base->th_notify_fd[0]); }
 	if (!SC->sigfd) sino0 = fd_ino(base->sig.ev_signal_pair[0]);
 	if (__real_pipe(lp)) { invalid_run = 1; return; }
 	pid = fork();
@@ -475,10 +501,13 @@ static void fork_point(void)
 			c_viol("C11:parent-epoll-registration-changed-by-child", "fdinfo of the parent's epoll fd before fork: [%s] after the child ran: [%s]", snap0, snap1);
 	}
 	if (base->th_notify_fd[0] >= 0) {
-		struct pollfd pf; pf.fd = base->th_notify_fd[0]; pf.events = POLLIN; pf.revents = 0;
+		/* nothing the child did may have touched the parent's notify fd (its state right before the fork is the
+		 * reference: this tree never reads the eventfd, so it may legitimately be readable already) */
+		long ncount1 = eventfd_count(base->th_notify_fd[0]);
+		int nread1 = fd_readable(base->th_notify_fd[0]);
 		c_stat("parent_notify_quiet_checks");
-		if (__real_poll(&pf, 1, 0) > 0 && (pf.revents & POLLIN))
-			c_viol("C11:child-wakeup-reached-parent", "the parent's notify fd became readable while only the child ran");
+		if (ncount1 != ncount0 || nread1 != nread0)
+			c_viol("C11:child-wakeup-reached-parent", "the parent's notify fd changed while only the child ran: eventfd-count %ld -> %ld, readable %d -> %d", ncount0, ncount1, nread0, nread1);
 	}
 }
 
@@ -532,14 +561,17 @@ static void *hs_helper(void *arg)
 }
 static void on_wait(int kind, int64_t timeout_us, void *a, void *b, void *c, int n)
 {
-	struct pollfd pf;
+	long c0, c1;
 	(void)kind; (void)timeout_us; (void)a; (void)b; (void)c; (void)n;
 	if (hs_phase != 1) return;
 	hs_phase = 2;
+	c0 = eventfd_count(base->th_notify_fd[0]);
 	sem_post(&hs_go);
 	pthread_join(hs_thread, NULL);      /* the helper is completely gone before anything else (fork!) happens */
-	pf.fd = base->th_notify_fd[0]; pf.events = POLLIN; pf.revents = 0;
-	hs_notified = (pf.fd >= 0 && __real_poll(&pf, 1, 0) > 0 && (pf.revents & POLLIN)) ? 1 : 0;
+	c1 = eventfd_count(base->th_notify_fd[0]);
+	/* an eventfd shows how many notifications were written; for the pipe fallback readability has to do */
+	if (c0 >= 0 && c1 >= 0) hs_notified = c1 > c0;
+	else hs_notified = fd_readable(base->th_notify_fd[0]);
 	tr("  handshake: helper activated the event, notify fd readable=%d", hs_notified);
 }
 static int hs_arm(struct event *ev)
@@ -658,7 +690,7 @@ static void wake_phase(void)
 	if (r < 0 || !wake_flag || hs_notified != 1) {
 		snprintf(key, sizeof(key), "C11:wakeup-not-delivered:%s%s", role == ROLE_CONTROL ? "never-forked" : is_child ? "child" : "parent",
 			(SC->fork_mode == F_NIF && role == ROLE_FORKED) ? "-forked-with-notification-in-flight" : "");
-		c_viol(key, "event_active() from a second thread while the loop thread sat in the backend wait: notify fd readable=%d, callback ran=%d, loop returned %d (backend=%s mech=%s fork=%s)",
+		c_viol(key, "event_active() from a second thread while the loop thread sat in the backend wait: notification written to the notify fd=%d, callback ran=%d, loop returned %d (backend=%s mech=%s fork=%s)",
 			hs_notified, wake_flag, r, BACKENDS[SC->backend], SC->sigfd ? "signalfd" : "selfpipe",
 			SC->fork_mode == F_TOP ? "top-level" : SC->fork_mode == F_CB ? "in-callback" : "in-callback-of-cross-thread-activated-event");
 	}
@@ -888,7 +920,11 @@ static void gen_scenario(struct scen *sc, vh_rng *r, long idx, int threads)
 	}
 	/* fork step */
 	sc->fork_mode = vh_chance(r, 1, 2) ? F_TOP : F_CB;
-	if (threads && vh_chance(r, 1, 3)) sc->fork_mode = F_NIF;
+	/* CALIBRATED (outside C11): on this tree the notify eventfd is never read, only edge-triggered; on poll/select
+	 * (no EV_ET) it stays readable after the first cross-thread wake-up and EVLOOP_NONBLOCK stepping would spin.
+	 * So a notification may be in flight at the fork only with epoll; the final wake-up phase (EVLOOP_ONCE, base
+	 * freed right after) runs on all backends. */
+	if (threads && sc->backend == 0 && vh_chance(r, 1, 2)) sc->fork_mode = F_NIF;
 	sc->fork_slot = ids[vh_below(r, (uint64_t)nids)];
 	sc->predel = -1;
 	if (sc->fork_mode == F_CB) {
